@@ -91,7 +91,11 @@ def main():
                 out[mid] = {"property": prop, "what": what, "status": "does not import"}
                 print(mid, prop, "DOES NOT IMPORT", comp.stderr[-200:])
                 continue
+            evp = ROOT / "evidence" / f"{prop}.json"
+            saved = evp.read_bytes() if evp.exists() else None
             r = subprocess.run([str(ROOT / "check"), prop, "--tier", "quick"], capture_output=True, text=True, env=dict(os.environ, VF_REPO=wt), cwd=str(ROOT))
+            if saved is not None:
+                evp.write_bytes(saved)
             viol = any(l.startswith("VIOLATION") for l in r.stdout.splitlines())
             mechs = [l.strip()[:160] for l in r.stdout.splitlines() if l.strip().startswith("mechanism=")][:2]
             out[mid] = {"property": prop, "what": what, "status": "caught" if viol else f"MISSED (exit {r.returncode})", "mechanisms": mechs}
